@@ -6,13 +6,19 @@
 #define ENV_MALLOC_CAP 5000
 #define ENV_NO_SHADOW
 #define ENV_CUSTOM_VSNPRINTF
+#define ENV_CUSTOM_MALLOC
 #include "env.c"
 #include "translated.h"
 uint32_t env_vsnprintf(uint8_t* s, uint64_t n, uint8_t* f, uint8_t* va) { (void)f; (void)va; if (n > 1) { s[0] = '#'; s[1] = 0; } else if (n) s[0] = 0; return 1; }
 
-static uint32_t det_calls, det_calls_unlocked, misuse_now, exited, watching;
+static uint32_t det_calls, det_calls_unlocked, misuse_now, exited, watching, dealloc_seen, invalidated, poison_calls;
+/* platform heap calls made by the detector while an entry point is being watched must happen under the lock */
+static void heap_seen(void) { if (watching && !env_mutex_held) det_calls_unlocked++; }
+uint8_t* env_malloc(uint64_t n) { heap_seen(); return env_raw_alloc(n); }
+void env_free(uint8_t* p) { heap_seen(); env_raw_free(p); }
+uint8_t* env_realloc(uint8_t* p, uint64_t n) { heap_seen(); uint8_t* q = env_raw_alloc(n); if (p) { memcpy(q, p, n < 4 ? n : 4); env_raw_free(p); } return q; }
 /* both worlds: the detector poisons released memory through PlatformSpecificMemset - it must hold the lock while it does */
-uint8_t* h_memset_hook(uint8_t* p, uint32_t c, uint64_t n) { if (watching && !env_mutex_held) det_calls_unlocked++; memset(p, (int)c, n); return p; }
+uint8_t* h_memset_hook(uint8_t* p, uint32_t c, uint64_t n) { if (watching && !env_mutex_held) det_calls_unlocked++; if (c == 0xCD) poison_calls++; memset(p, (int)c, n); return p; }
 static uint8_t token[16];
 #ifdef LL2C_TRANSLATED
 /* translated world: the detector's operations are contract stubs that observe the lock (the detector itself is C04-C06);
@@ -20,10 +26,10 @@ static uint8_t token[16];
 static void det_enter(void) { det_calls++; if (watching && !env_mutex_held) det_calls_unlocked++; }
 uint8_t* _ZN18MemoryLeakDetector11allocMemoryEP19TestMemoryAllocatormPKcmb(uint8_t* t, uint8_t* a, uint64_t n, uint8_t* f, uint64_t l, uint8_t sep) { (void)t; (void)a; (void)n; (void)f; (void)l; (void)sep; det_enter(); return token; }
 uint8_t* _ZN18MemoryLeakDetector11allocMemoryEP19TestMemoryAllocatormb(uint8_t* t, uint8_t* a, uint64_t n, uint8_t sep) { (void)t; (void)a; (void)n; (void)sep; det_enter(); return token; }
-void _ZN18MemoryLeakDetector13deallocMemoryEP19TestMemoryAllocatorPvPKcmb(uint8_t* t, uint8_t* a, uint8_t* p, uint8_t* f, uint64_t l, uint8_t sep) { (void)t; (void)a; (void)p; (void)f; (void)l; (void)sep; det_enter(); if (misuse_now) h_real_reporter_fail(); }
-void _ZN18MemoryLeakDetector13deallocMemoryEP19TestMemoryAllocatorPvb(uint8_t* t, uint8_t* a, uint8_t* p, uint8_t sep) { (void)t; (void)a; (void)p; (void)sep; det_enter(); if (misuse_now) h_real_reporter_fail(); }
+void _ZN18MemoryLeakDetector13deallocMemoryEP19TestMemoryAllocatorPvPKcmb(uint8_t* t, uint8_t* a, uint8_t* p, uint8_t* f, uint64_t l, uint8_t sep) { (void)t; (void)a; (void)p; (void)f; (void)l; (void)sep; det_enter(); dealloc_seen = 1; if (misuse_now) h_real_reporter_fail(); }
+void _ZN18MemoryLeakDetector13deallocMemoryEP19TestMemoryAllocatorPvb(uint8_t* t, uint8_t* a, uint8_t* p, uint8_t sep) { (void)t; (void)a; (void)p; (void)sep; det_enter(); dealloc_seen = 1; if (misuse_now) h_real_reporter_fail(); }
 uint8_t* _ZN18MemoryLeakDetector13reallocMemoryEP19TestMemoryAllocatorPcmPKcmb(uint8_t* t, uint8_t* a, uint8_t* p, uint64_t n, uint8_t* f, uint64_t l, uint8_t sep) { (void)t; (void)a; (void)p; (void)n; (void)f; (void)l; (void)sep; det_enter(); return token; }
-void _ZN18MemoryLeakDetector16invalidateMemoryEPc(uint8_t* t, uint8_t* p) { (void)t; (void)p; det_enter(); }
+void _ZN18MemoryLeakDetector16invalidateMemoryEPc(uint8_t* t, uint8_t* p) { (void)t; (void)p; det_enter(); if (!dealloc_seen) invalidated = 1;   /* poisoning only reaches a block that is still in the accounting */ }
 #endif
 
 void h_exit_hook(void) {
@@ -44,9 +50,18 @@ static void body_entry(const int kind, const uint32_t mode) {
   h_mode(mode);
   if (mode == 0 && (is_release(kind) || kind == 9)) { WITNESS("skipped"); return; }   /* releasing a tracked block with overloads off is a usage error */
   uint32_t l0 = env_mutex_lock_calls, u0 = env_mutex_unlock_calls, d0 = det_calls;
-  watching = (mode == 2);
+  watching = (mode == 2); invalidated = 0; dealloc_seen = 0;
+  uint32_t p0 = poison_calls;
   uint8_t* r = h_entry(kind, blk);
   watching = 0;
+  if (is_release(kind) && mode != 0) {
+    /* C06 at the plugin level: the user bytes are poisoned BEFORE the block leaves the accounting */
+#ifdef LL2C_TRANSLATED
+    CHECK(invalidated, "a released block is poisoned, and before it is released");
+#else
+    CHECK(poison_calls == p0 + 1, "a released block is poisoned, and before it is released");
+#endif
+  }
   OBSERVE(env_mutex_lock_calls - l0); OBSERVE(env_mutex_unlock_calls - u0);
   if (mode == 2) {
     CHECK(env_mutex_lock_calls == l0 + 1 && env_mutex_unlock_calls == u0 + 1, "thread-safe mode: the entry point takes the detector's lock exactly once and releases it");
